@@ -33,16 +33,19 @@ LEAN_TARGETS = ["Eliot.Properties.C20"]
 AUDIT = "Eliot/Audit/C20.lean"
 THEOREMS = [
     "PP.header_first",
+    "PP.header_first_compact",
     "PP.header_then_all_fields_once",
+    "PP.shown_rest_sorted",
     "PP.compact_single_line",
     "PP.compact_not_single_line_newline_in_key",
     "PP.cli_total_partial",
-    "PP.cli_aborts_on_array",
+    "PP.cli_aborts_on_non_object",
     "PP.cli_aborts_on_bad_task_level",
     "PP.cli_total_false",
     "PP.cli_run_partial",
     "PP.filter_identity",
     "PP.filter_skip",
+    "PP.filter_skip_line",
 ]
 RULE = ("format: generated message x formatter x timezone; cli: stream of 2-8 lines (Eliot lines plus foreign ones, at most one "
         "line of a kind that is known to abort the program per stream) x formatter x timezone; filter: 2-7 Eliot lines x expression; "
@@ -617,14 +620,14 @@ def nontrivial_msg(m):
 def gen_cases(ctx):
     rng = ctx.rng("gen")
     cases = []
-    for i in range(ctx.budget(230, 9000)):
+    for i in range(ctx.budget(300, 9000)):
         m = gen_message(rng, newline_name=(i % 23 == 7))
         cases.append(dict(kind="format", compact=rng.random() < 0.5, local=rng.random() < 0.3, msg=m))
     # the hand-found one: a newline in a field name, compact
     cases.append(dict(kind="format", compact=True, local=False,
                       msg={"task_uuid": "u", "task_level": [1], "timestamp": 1.0, "a\nb": 1}))
     bad = bad_lines()
-    for i in range(ctx.budget(45, 1800)):
+    for i in range(ctx.budget(70, 1800)):
         n = rng.randint(2, 8)
         tol = tolerated_lines(rng)
         lines = []
@@ -638,7 +641,7 @@ def gen_cases(ctx):
     # every known-bad line once, alone (stable keys on every seed)
     for l, _key in bad:
         cases.append(dict(kind="cli", compact=False, local=False, lines=[list(l)]))
-    for i in range(ctx.budget(40, 1500)):
+    for i in range(ctx.budget(60, 1500)):
         n = rng.randint(2, 7)
         ms = []
         while len(ms) < n:
